@@ -111,7 +111,6 @@ class Checker:
         for code in raw_codes:
             code = code.strip().upper()
             if not code.startswith(PREFIXES):
-                print(repr(code), match)
                 continue
             match = RE_DIGITS.search(code)
             clean_codes.append(match.group(0) if match else '')
